@@ -174,6 +174,27 @@ func decodePropOptionalRule(c *Ctx, pr *PropertyRun, prop string, decodeProp *ss
 			}
 			r.Role("decode-prop-call")
 			n := len(variadicElems(call.Common().Args[1]))
+			// a helper that forwards its own variadic parameter: as many as
+			// its callers hand it
+			if prm, isPrm := call.Common().Args[1].(*ssa.Parameter); isPrm {
+				idx := paramIndex(fn, prm)
+				for _, e := range c.CG().In[fn] {
+					if e.Site == nil || !p.InModule(e.Caller) {
+						continue
+					}
+					cc := e.Site.Common()
+					var all []ssa.Value
+					if cc.IsInvoke() {
+						all = append(all, cc.Value)
+					}
+					all = append(all, cc.Args...)
+					if idx < len(all) {
+						if m := len(variadicElems(all[idx])); m > n {
+							n = m
+						}
+					}
+				}
+			}
 			ok = n <= 1 || !errToleratedAnywhere(call)
 			r.Ob(ok)
 			if !ok {
